@@ -7,7 +7,8 @@
    kind=prop: an observable the property C05 determines differs (an item dropped at the wrong
    time / twice / never, into_inner's Some/None, a count, num_items, the slab destroyed too early
    / too late, pages not given back, a slot handed out while its item is alive, panic, hang,
-   crash).  kind=corr: only the ADDRESS policy differs (which free slot, when a page is added). *)
+   crash, more live pages than the free-list discipline needs = lost slots).  kind=corr: only the
+   ADDRESS policy differs (which free slot is taken, fewer pages). *)
 open Conv
 
 let parse_op (toks : string list) : Model.op option =
@@ -82,9 +83,15 @@ let () =
           let ri, fi = fields impl and rw, fw = fields want in
           let g k l = try List.assoc k l with Not_found -> "" in
           let other_fields_equal = List.for_all (fun k -> g k fi = g k fw) [ "items"; "log"; "rdrop" ] in
-          let addr_only = is_addr ri && is_addr rw && other_fields_equal in
-          let pages_only = ri = rw && other_fields_equal && g "pages" fi <> g "pages" fw && g "items" fw <> "-" in
-          fail i (if addr_only || pages_only then "corr" else "prop")
+          let res_compatible = ri = rw || (is_addr ri && is_addr rw) in
+          (* fewer live pages than the model while the slab is alive: another paging policy; MORE pages for the
+             same history: slots have been lost (they are neither items nor on the free list) *)
+          let pages_compatible =
+            g "pages" fi = g "pages" fw
+            || (g "items" fw <> "-" && (try int_of_string (g "pages" fi) < int_of_string (g "pages" fw) with _ -> false))
+          in
+          let policy_only = other_fields_equal && res_compatible && pages_compatible in
+          fail i (if policy_only then "corr" else "prop")
             (Printf.sprintf "op=[%s] impl=[%s] model=[%s]" ops impl want)
         end
       in
@@ -102,6 +109,14 @@ let () =
               match List.hd toks with
               | "LAYOUT" -> fail i "corr" ("layout: " ^ impl)
               | "NEW" -> compare_line i ops impl ("u" ^ tail spp !y [])
+              | "PAR" ->
+                (* threads: the harness checks what every interleaving guarantees (no slot shared by two live
+                   items, every payload dropped exactly once, num_items as before); the items created inside
+                   are all gone again, the ORDER of the free list afterwards is not determined: only FIN may follow *)
+                let ri, _ = fields impl in
+                if String.length ri >= 6 && String.sub ri 0 6 = "par-ok" then stat "par_blocks" 1
+                else if ri = "dead" && not (Model.obs_alive !y) then ()
+                else fail i "prop" (Printf.sprintf "op=[%s] impl=[%s]: concurrent use of the slab" ops impl)
               | "FIN" ->
                 if not (Model.obs_alive !y) then compare_line i ops impl "dead"
                 else begin
